@@ -146,22 +146,33 @@ func MalformedFiles() []FileSpec {
 // malformed member.
 func FileSets(nfiles, maxDecl int, withMalformed bool) []FileSet {
 	var out []FileSet
+	FileSetsEach(nfiles, maxDecl, withMalformed, nil, func(_ int, fs FileSet) { out = append(out, fs) })
+	return out
+}
+
+// FileSetsEach enumerates the same sets without materialising them: set number i is built only if want is nil or
+// want(i). It returns the number of sets.
+func FileSetsEach(nfiles, maxDecl int, withMalformed bool, want func(i int) bool, f func(i int, fs FileSet)) int {
 	var seqs [][][]decl
-	for f := 0; f < nfiles; f++ {
-		seqs = append(seqs, declSeqs(f, maxDecl))
+	for fi := 0; fi < nfiles; fi++ {
+		seqs = append(seqs, declSeqs(fi, maxDecl))
 	}
+	n := 0
 	idx := make([]int, nfiles)
 	for {
-		fs := FileSet{}
-		for f := 0; f < nfiles; f++ {
-			ds := seqs[f][idx[f]]
-			fs.Files = append(fs.Files, buildFile(f, ds))
-			if f > 0 {
-				fs.Tag += " | "
+		if want == nil || want(n) {
+			fs := FileSet{}
+			for fi := 0; fi < nfiles; fi++ {
+				ds := seqs[fi][idx[fi]]
+				fs.Files = append(fs.Files, buildFile(fi, ds))
+				if fi > 0 {
+					fs.Tag += " | "
+				}
+				fs.Tag += fileNames[fi] + ":" + seqTag(ds)
 			}
-			fs.Tag += fileNames[f] + ":" + seqTag(ds)
+			f(n, fs)
 		}
-		out = append(out, fs)
+		n++
 		k := nfiles - 1
 		for k >= 0 {
 			idx[k]++
@@ -178,17 +189,23 @@ func FileSets(nfiles, maxDecl int, withMalformed bool) []FileSet {
 	if withMalformed {
 		for _, mf := range MalformedFiles() {
 			for _, ds := range declSeqs(0, maxDecl) {
-				out = append(out, FileSet{Tag: "a.fga:" + seqTag(ds) + " | " + mf.Name, Files: []FileSpec{buildFile(0, ds), mf}})
+				if want == nil || want(n) {
+					f(n, FileSet{Tag: "a.fga:" + seqTag(ds) + " | " + mf.Name, Files: []FileSpec{buildFile(0, ds), mf}})
+				}
+				n++
 			}
-			out = append(out, FileSet{Tag: mf.Name + " alone", Files: []FileSpec{mf}})
+			if want == nil || want(n) {
+				f(n, FileSet{Tag: mf.Name + " alone", Files: []FileSpec{mf}})
+			}
+			n++
 		}
 	}
-	return out
+	return n
 }
 
-// FileSetsCore is FileSets over the conflict-relevant sub-menu (7 declarations).
-func FileSetsCore(nfiles, maxDecl int) []FileSet {
+// FileSetsCoreEach is FileSetsEach over the conflict-relevant sub-menu (7 declarations).
+func FileSetsCoreEach(nfiles, maxDecl int, want func(i int) bool, f func(i int, fs FileSet)) int {
 	menuFilter = func(tag string) bool { return coreMenu[tag] }
 	defer func() { menuFilter = nil }()
-	return FileSets(nfiles, maxDecl, false)
+	return FileSetsEach(nfiles, maxDecl, false, want, f)
 }
